@@ -765,6 +765,39 @@ def rule_r4(chk, prog):
                 want.pop(k)
     chk.check('C16.R4', where, 'Bool/Int/Real branches present', not want,
               f'missing branches for {sorted(want)}', loc=m.loc(f))
+    # parametric sorts: the constants put into a container are those of the
+    # parameter the container's constructor takes (SMT-LIB signatures:
+    # (Set E): singleton : E -> (Set E); (Array I E): (as const (Array I E))
+    # : E -> (Array I E); (Seq E): seq.unit : E -> (Seq E))
+    PARAM_OF = {'is_set_sort': ('Set', 1), 'is_array_sort': ('Array', 2),
+                'is_seq_sort': ('Seq', 1)}
+    nrec = 0
+    for c in calls_in(f):
+        if call_name(c) != f.name or not c.args:
+            continue
+        a = c.args[0]
+        if not (isinstance(a, ast.Subscript) and unparse(a.value) == param
+                and isinstance(a.slice, ast.Constant)):
+            raise AnalysisError(
+                f'C16.R4: {m.loc(c)}: recursive call on "{unparse(a)}", '
+                'not on a parameter of the sort')
+        nrec += 1
+        guards = [t.split('(')[0] for (t, pol) in facts_at(f, c)
+                  if pol and t.endswith(f'({param})')
+                  and t.split('(')[0] in PARAM_OF]
+        if len(guards) != 1:
+            raise AnalysisError(
+                f'C16.R4: {m.loc(c)}: the container sort of the recursive '
+                f'call is not recognised (guards {guards})')
+        ctor, k = PARAM_OF[guards[0]]
+        chk.check('C16.R4', where, f'({ctor} ..): element constants from '
+                  f'{unparse(a)}', a.slice.value == k,
+                  f'the constants placed into a ({ctor} ..) value are the '
+                  f'default constants of {unparse(a)}, but the constructor '
+                  f'takes a value of parameter {k} of the sort: for sorts '
+                  'whose parameters differ the proposed term is ill-sorted',
+                  loc=m.loc(c), nontrivial=True)
+    chk.floor('C16.R4', 'recursive default constants (containers)', nrec, 1)
     txt = unparse(f).replace(' ', '')
     ok = f"[Node('_',c,{param}[2])forcin['bv0','bv1']]" in txt
     chk.check('C16.R4', where, 'bit-vector constants keep the width of the '
@@ -1708,6 +1741,15 @@ def run(tier):
     chk.guard(rule_r8, chk, prog)
     chk.guard(rule_r9, chk, prog)
     chk.extra['exhaustive'] = True
+    from .. import memo
+
+    def _memo_rule(chk, prog):
+        chk.rule('C16.R10', 'memoised functions of the sort inference: the cached value depends only on the cache key')
+        memo.report(chk, prog, 'C16.R10', 'memoised functions of the sort inference',
+                    lambda m, q: m.name == 'smtlib',
+                    'the lookup tables are rebuilt for every input; a value cached for an earlier input is served for the current one, so a proposal is made for the wrong sort')
+
+    chk.guard(_memo_rule, chk, prog)
     extra = None
     if tier == 'thorough':
         from .. import selftest
